@@ -92,8 +92,16 @@ package server
 // Port entries (property C19): "protocol/port" or "protocol/host:port", protocol tcp or udp,
 // port a decimal in 0..65535. splitcount / isuint are the uninterpreted results of strings.Split
 // and strconv.ParseUint (assumed contracts).
+// thost/tport: the host and port text of an entry; the address is the resolver's answer for them (restcp /
+// resudp / resok name what net.ResolveTCPAddr / ResolveUDPAddr compute): a host that does not resolve is an
+// error, never a wildcard.
+//@ spec hostport(input string) string = splitpart(input, "/", 1)
+//@ spec thost(input string) string = ite(splitok(hostport(input)), splithost(hostport(input)), "")
+//@ spec tport(input string) string = ite(splitok(hostport(input)), splitport(hostport(input)), hostport(input))
 //@ func ToAddr
 //@   check safety
+//@   ensures [resolved-tcp] result3 == nil && result1 == "tcp" ==> resok("tcp", joinhp(thost(input), tport(input))) && unbox(result0, *net.TCPAddr) == restcp(joinhp(thost(input), tport(input)))
+//@   ensures [resolved-udp] result3 == nil && result1 == "udp" ==> resok("udp", joinhp(thost(input), tport(input))) && unbox(result0, *net.UDPAddr) == resudp(joinhp(thost(input), tport(input)))
 //@   ensures [shape] splitcount(input, "/") != 2 ==> result3 != nil
 //@   ensures [proto] result3 == nil ==> result1 == "tcp" || result1 == "udp"
 //@   ensures [port-range] result3 == nil ==> 0 <= result2 && result2 <= 65535
